@@ -560,6 +560,14 @@ func (g *Gen) modEntryNames(fc *FnCtx, sp *FuncSpec, e string) []string {
 		fc.storeNames(&Addr{Kind: aElem}, t, out)
 		return sortedKeys(out)
 	}
+	if strings.HasPrefix(e, "raw ") {
+		// an array of the memory model by its own name (cells of types the contract language cannot spell)
+		n := strings.TrimSpace(strings.TrimPrefix(e, "raw "))
+		if _, ok := fc.sorts[n]; !ok {
+			return nil
+		}
+		return []string{n}
+	}
 	if strings.HasPrefix(e, "cell(") {
 		tn := strings.TrimSuffix(strings.TrimPrefix(e, "cell("), ")")
 		env := &Env{fc: fc, pkg: g.pkg.Pkg}
@@ -1529,6 +1537,14 @@ func (fr *Frame) builtin(in ssa.Instruction, bi *ssa.Builtin, c *ssa.CallCommon,
 						js := fmt.Sprint(j)
 						fc.define(sImp(sNot(sEq(tb, "0")), sEq(sx("select", sx("select", sym(nw), tb), e.idxAdd(toff, js)),
 							sx("select", sx("select", old, s.Sub[0].S), e.idxAdd(s.Sub[1].S, js)))))
+					}
+				}
+				// likewise an appended part of small constant length (append(s, v)): the new elements are the source's
+				if k, err := strconv.Atoi(n); err == nil && k >= 1 && k <= 8 && m.mode == ModeInt && !isStr {
+					for j := 0; j < k; j++ {
+						js := fmt.Sprint(j)
+						fc.define(sImp(sNot(sEq(tb, "0")), sEq(sx("select", sx("select", sym(nw), tb), e.idxAdd(e.idxAdd(toff, s.Sub[2].S), js)),
+							sx("select", sx("select", old, srcBase), e.idxAdd(srcOff, js)))))
 					}
 				}
 				st = st.setRaw(an, sym(nw))
